@@ -16,7 +16,7 @@ Lemma rad_ok : forall w cont c cs q i tail log len,
 Proof.
   intros w cont c cs q i tail log len HP Hrl Hst Hv Hlen Hs Hl.
   destruct (stageA w cont c cs q i tail log len HP Hrl Hv Hs Hl)
-    as [w' i' log' HP' Hrl' Hst' Hca' Hq Hs' Hl' | m b2 i' log' Hm Hm0 Hbd Hb2 Hrd Hs' Hl'].
+    as [w' i' log' HP' Hrl' Hst' Hca' Hq Hav Hs' Hl' | m b2 i' log' Hm Hm0 Hbd Hb2 Hrd Hs' Hl'].
   - unfold of_dres. rewrite Hst. rewrite spor_id by (left; reflexivity).
     eexists (-1), (Some EAGAIN), [], _, i', log', _.
     split; [reflexivity|]. split; [reflexivity|]. split; [assumption|]. split; [|reflexivity].
@@ -139,8 +139,8 @@ Proof.
     unfold step_ok, ws_decode. rewrite Hst. change (ST_HEADER_PENDING =? ST_HEADER_PENDING) with true. cbv iota.
     unfold read_header. rewrite Hnr. change (HL_SHORT - 0 <=? 0) with false. cbn [andb].
     unfold hdr_read. rewrite to_u64_id by (unfold HL_SHORT, two64; lia).
-    destruct (reader_live (HL_SHORT - 0) i Hl ltac:(unfold HL_SHORT; lia)) as (r & i' & tag & Hr & Hl' & Hcase).
-    rewrite Hr. destruct Hcase as [[-> Hs'] | (m & Hm0 & _ & Hms & _)].
+    destruct (reader_live (HL_SHORT - 0) i Hl ltac:(unfold HL_SHORT; lia)) as (r & i' & tag & Hr & Hl' & _ & Hcase).
+    rewrite Hr. destruct Hcase as [(-> & Hs' & _) | (m & Hm0 & _ & Hms & _)].
     + unfold h_pending. change (ST_HEADER_PENDING =? ST_ERR) with false. cbv iota.
       change (negb (ST_HEADER_PENDING =? ST_HEADER_PENDING)) with false. cbv iota.
       eexists (-1), (Some EAGAIN), [], (spor (set_st w ST_HEADER_PENDING)), i', _, [].
@@ -150,7 +150,7 @@ Proof.
   - (* inside a frame header *)
     set (tail := encode_frames (conv_frames (cf_next cont c) cs)) in *.
     pose proof (read_header_ok w cont c cs k i (wire cont c ++ tail) HBw Hk Hv Hs Hl) as Ho.
-    destruct Ho as [(w' & i' & log' & k' & E & HB' & Hk' & Hs' & Hl') | (w' & i' & log' & E & HP' & Hrl' & Hs' & Hl')].
+    destruct Ho as [(w' & i' & log' & k' & E & HB' & Hk' & Hs' & Hl' & Hstall) | (w' & i' & log' & E & HP' & Hrl' & Hs' & Hl')].
     + unfold step_ok, ws_decode. rewrite Hst. change (ST_HEADER_PENDING =? ST_HEADER_PENDING) with true. cbv iota.
       rewrite E. unfold h_pending. change (ST_HEADER_PENDING =? ST_ERR) with false. cbv iota.
       change (negb (ST_HEADER_PENDING =? ST_HEADER_PENDING)) with false. cbv iota.
